@@ -401,6 +401,16 @@ def rule_formulas(repo, rep):
   ft = ftv
   reg = [v for (n, v) in guards.assignments(ft.node, 'reg_loss')
          if v is not None]
+  if not reg:
+    # no temporary: the regulariser is the other operand of the returned sum
+    for n in ast.walk(ft.node):
+      if isinstance(n, ast.Return) and isinstance(n.value, ast.BinOp) and \
+              isinstance(n.value.op, ast.Add):
+        for side, other in ((n.value.left, n.value.right),
+                            (n.value.right, n.value.left)):
+          if isinstance(other, ast.Call) and \
+                  ast.unparse(other.func) == 'self._comparison_loss':
+            reg = [side]
   okr = reg and ast.unparse(reg[0]) in (
       'np.sum(metric * prior_inv) - sign * logdet',
       'np.trace(metric.dot(prior_inv)) - sign * logdet',
